@@ -1,8 +1,9 @@
 //! C17 — partial and replaying visitors observe the same facts as a full read.
 //!
 //! `gen`: class files (javac corpus, hand-assembled ones with every attribute kind, truncated / padded / bad-header
-//! variants, streams of 1–5 files) × visitor configurations (interest masks at class / field / method / code /
-//! record-component level, declined classes / fields / methods / record components / `Code`s). The framing sent to the
+//! variants, members whose names do not resolve, streams of 1–5 files) × visitor configurations (interest masks at class /
+//! field / method / code / record-component level, class visitors with `fields` / `methods` off, declined classes / fields /
+//! methods / record components / `Code`s). The framing sent to the
 //! model is computed by the independent parser `fvh::c17frame`; the executor only looks at the bytes and the configurations.
 //! `exec`: runs `duke::read_class_multi` (successive reads on one `Cursor`) / `ClassFile::accept` with recording visitors
 //! that report the configured interests, decline the configured items and write down every event they receive.
@@ -64,6 +65,7 @@ impl Mask {
 			_ => Mask(r.next()),
 		}
 	}
+	fn with(self, k: &str) -> Mask { Mask(self.0 | (1 << TAGS.iter().position(|t| *t == k).unwrap())) }
 	fn without(self, k: &str) -> Mask { Mask(self.0 & !(1 << TAGS.iter().position(|t| *t == k).unwrap())) }
 }
 
@@ -149,7 +151,8 @@ enum E {
 	CodeInsns { i: usize, insns: Vec<String>, frames: Vec<Option<String>> },
 	CodeExc { i: usize, h: usize, c: String },
 	CodeLines { i: usize, n: usize, c: String },
-	CodeLocals { i: usize, entries: Vec<(bool, String)> },
+	/// per entry: its descriptor, its signature, the rest (range, name, index)
+	CodeLocals { i: usize, entries: Vec<(Option<String>, Option<String>, String)> },
 }
 
 fn nat(n: usize) -> Sexp { Sexp::nat(n) }
@@ -168,7 +171,7 @@ impl E {
 			E::CodeInsns { i, insns, frames } => Sexp::list(vec![tag("k-insns"), nat(*i), nat(frames.iter().filter(|f| f.is_some()).count()), nat(insns.len())]),
 			E::CodeExc { i, h, .. } => Sexp::list(vec![tag("k-exc"), nat(*i), nat(*h)]),
 			E::CodeLines { i, n, .. } => Sexp::list(vec![tag("k-lines"), nat(*i), nat(*n)]),
-			E::CodeLocals { i, entries } => Sexp::list(vec![tag("k-locals"), nat(*i), nat(entries.iter().filter(|e| e.0).count()), nat(entries.iter().filter(|e| !e.0).count())]),
+			E::CodeLocals { i, entries } => Sexp::list(vec![tag("k-locals"), nat(*i), nat(entries.iter().filter(|e| e.0.is_some()).count()), nat(entries.iter().filter(|e| e.1.is_some()).count())]),
 		}
 	}
 }
@@ -443,7 +446,7 @@ impl MethodVisitor for MethodRec {
 			match e {
 				E::Attr { l: Lvl::K, c, .. } => for s in c.iter_mut() { *s = patch_labels(s, &map); },
 				E::CodeExc { c, .. } | E::CodeLines { c, .. } => *c = patch_labels(c, &map),
-				E::CodeLocals { entries, .. } => for x in entries.iter_mut() { x.1 = patch_labels(&x.1, &map); },
+				E::CodeLocals { entries, .. } => for x in entries.iter_mut() { x.2 = patch_labels(&x.2, &map); },
 				_ => {}
 			}
 		}
@@ -484,7 +487,8 @@ impl CodeVisitor for CodeRec {
 		Ok(())
 	}
 	fn visit_local_variables(&mut self, v: Vec<Lv>) -> Result<()> {
-		self.log.borrow_mut().push(E::CodeLocals { i: self.i, entries: v.iter().map(|lv| (lv.descriptor.is_some(), dbg(lv))).collect() });
+		self.log.borrow_mut().push(E::CodeLocals { i: self.i, entries: v.iter().map(|lv|
+			(lv.descriptor.as_ref().map(dbg), lv.signature.as_ref().map(dbg), format!("{:?} {:?} {:?}", lv.range, lv.name, lv.index))).collect() });
 		Ok(())
 	}
 	fn visit_type_annotations(self, visible: bool) -> Result<(Self::TypeAnnotationsResidual, Self::TypeAnnotationsVisitor)> { Ok(((self, visible), Vec::new())) }
@@ -531,7 +535,7 @@ fn res_sexp(r: &ReadRes) -> Sexp {
 // ------------------------------------------------------------------------------------------------ the property, evaluated on the implementation
 
 fn code_mask(cfg: &Cfg, i: usize) -> Option<Mask> {
-	match (cfg.cls, cfg.method(i)) { (Some(_), Some(mc)) if mc.code => mc.code_v, _ => None }
+	match (cfg.cls, cfg.method(i)) { (Some(_), Some(mc)) if cfg.methods_i && mc.code => mc.code_v, _ => None }
 }
 fn ev_bit(unk: bool, k: &'static str) -> &'static str { if unk { "other" } else { k } }
 
@@ -539,39 +543,16 @@ fn ev_bit(unk: bool, k: &'static str) -> &'static str { if unk { "other" } else 
 fn proj(cfg: &Cfg, e: &E) -> Option<E> {
 	let keep = |b: bool| if b { Some(e.clone()) } else { None };
 	let cls = cfg.cls;
+	let field = |i: usize| cls.filter(|_| cfg.fields_i).and_then(|_| cfg.field(i));
+	let method = |i: usize| cls.filter(|_| cfg.methods_i).and_then(|_| cfg.method(i));
 	match e {
 		E::Begin { l: Lvl::C, .. } => Some(e.clone()),
 		E::Attr { l: Lvl::C, unk, k, .. } => cls.and_then(|m| keep(m.has(ev_bit(*unk, k)))),
 		E::Begin { l: Lvl::R, .. } => cls.and_then(|m| keep(m.has("record"))),
 		E::Attr { l: Lvl::R, i, unk, k, .. } => cls.filter(|m| m.has("record")).and_then(|_| cfg.rec(*i)).and_then(|rm| keep(rm.has(ev_bit(*unk, k)))),
 		E::End { l: Lvl::R, i } => keep(cls.filter(|m| m.has("record")).and_then(|_| cfg.rec(*i)).is_some()),
-		E::Flags { l: Lvl::C, .. } | E::End { l: Lvl::C, .. } | E::Begin { l: Lvl::F, .. } | E::Begin { l: Lvl::M, .. } => keep(cls.is_some()),
-		E::Attr { l: Lvl::F, i, unk, k, .. } => cls.and_then(|_| cfg.field(*i)).and_then(|fm| keep(fm.has(ev_bit(*unk, k)))),
-		E::Flags { l: Lvl::F, i, .. } | E::End { l: Lvl::F, i } => keep(cls.is_some() && cfg.field(*i).is_some()),
-		E::Attr { l: Lvl::M, i, unk, k, .. } => cls.and_then(|_| cfg.method(*i)).and_then(|mc| keep(mc.mask.has(ev_bit(*unk, k)))),
-		E::Flags { l: Lvl::M, i, .. } | E::End { l: Lvl::M, i } => keep(cls.is_some() && cfg.method(*i).is_some()),
-		E::Begin { l: Lvl::K, i, .. } => cls.and_then(|_| cfg.method(*i)).and_then(|mc| keep(mc.code)),
-		E::CodeMaxs { i, .. } | E::CodeExc { i, .. } | E::End { l: Lvl::K, i } => keep(code_mask(cfg, *i).is_some()),
-		E::Attr { l: Lvl::K, i, unk, k, .. } => code_mask(cfg, *i).and_then(|cm| keep(cm.has(ev_bit(*unk, k)))),
-		E::CodeInsns { i, insns, frames } => code_mask(cfg, *i).map(|cm| E::CodeInsns { i: *i, insns: insns.clone(),
-			frames: if cm.has("smt") { frames.clone() } else { frames.iter().map(|_| None).collect() } }),
-		E::CodeLines { i, .. } => code_mask(cfg, *i).and_then(|cm| keep(cm.has("lnt"))),
-		E::CodeLocals { i, entries } => code_mask(cfg, *i).and_then(|cm| {
-			let es: Vec<_> = entries.iter().filter(|x| if x.0 { cm.has("lvt") } else { cm.has("lvtt") }).cloned().collect();
-			if es.is_empty() { None } else { Some(E::CodeLocals { i: *i, entries: es }) }
-		}),
-		E::Flags { l: Lvl::R | Lvl::K, .. } => None,
-	}
-}
-
-/// what `ClassFile::accept` hands a visitor configured by `cfg` of an event of the full replay (statement of `accept_projection`)
-fn proj_a(cfg: &Cfg, e: &E) -> Option<E> {
-	let keep = |b: bool| if b { Some(e.clone()) } else { None };
-	let cls = cfg.cls;
-	let field = |i: usize| cls.filter(|_| cfg.fields_i).and_then(|_| cfg.field(i));
-	let method = |i: usize| cls.filter(|_| cfg.methods_i).and_then(|_| cfg.method(i));
-	let code = |i: usize| method(i).filter(|mc| mc.code).and_then(|mc| mc.code_v);
-	match e {
+		E::Flags { l: Lvl::C, .. } | E::End { l: Lvl::C, .. } => keep(cls.is_some()),
+		// nothing of the fields (methods) for a class visitor that reports `fields` (`methods`) = false
 		E::Begin { l: Lvl::F, .. } => keep(cls.is_some() && cfg.fields_i),
 		E::Begin { l: Lvl::M, .. } => keep(cls.is_some() && cfg.methods_i),
 		E::Attr { l: Lvl::F, i, unk, k, .. } => field(*i).and_then(|fm| keep(fm.has(ev_bit(*unk, k)))),
@@ -579,16 +560,44 @@ fn proj_a(cfg: &Cfg, e: &E) -> Option<E> {
 		E::Attr { l: Lvl::M, i, unk, k, .. } => method(*i).and_then(|mc| keep(mc.mask.has(ev_bit(*unk, k)))),
 		E::Flags { l: Lvl::M, i, .. } | E::End { l: Lvl::M, i } => keep(method(*i).is_some()),
 		E::Begin { l: Lvl::K, i, .. } => method(*i).and_then(|mc| keep(mc.code)),
-		E::CodeMaxs { i, .. } | E::CodeExc { i, .. } | E::End { l: Lvl::K, i } | E::CodeInsns { i, .. } => keep(code(*i).is_some()),
-		E::Attr { l: Lvl::K, i, unk, k, .. } => code(*i).and_then(|cm| keep(cm.has(ev_bit(*unk, k)))),
-		E::CodeLines { i, .. } => code(*i).and_then(|cm| keep(cm.has("lnt"))),
-		E::CodeLocals { i, .. } => code(*i).and_then(|cm| keep(cm.has("lvt") || cm.has("lvtt"))),
+		E::CodeMaxs { i, .. } | E::CodeExc { i, .. } | E::End { l: Lvl::K, i } => keep(code_mask(cfg, *i).is_some()),
+		E::Attr { l: Lvl::K, i, unk, k, .. } => code_mask(cfg, *i).and_then(|cm| keep(cm.has(ev_bit(*unk, k)))),
+		E::CodeInsns { i, insns, frames } => code_mask(cfg, *i).map(|cm| E::CodeInsns { i: *i, insns: insns.clone(),
+			frames: if cm.has("smt") { frames.clone() } else { frames.iter().map(|_| None).collect() } }),
+		E::CodeLines { i, .. } => code_mask(cfg, *i).and_then(|cm| keep(cm.has("lnt"))),
+		E::CodeLocals { i, entries } => code_mask(cfg, *i).and_then(|cm| {
+			let es = strip_locals(&cm, entries);
+			if es.is_empty() { None } else { Some(E::CodeLocals { i: *i, entries: es }) }
+		}),
+		E::Flags { l: Lvl::R | Lvl::K, .. } => None,
+	}
+}
+
+/// the entries, and halves of entries, that come from the local variable tables a code visitor with interests `cm` asks for
+fn strip_locals(cm: &Mask, entries: &[(Option<String>, Option<String>, String)]) -> Vec<(Option<String>, Option<String>, String)> {
+	entries.iter().map(|x| (if cm.has("lvt") { x.0.clone() } else { None }, if cm.has("lvtt") { x.1.clone() } else { None }, x.2.clone()))
+		.filter(|x| x.0.is_some() || x.1.is_some()).collect()
+}
+
+/// what `ClassFile::accept` hands a visitor configured by `cfg` of an event of the full replay (statement of
+/// `accept_projection`): like `proj`, except that a local variable vector without entries is handed to every code visitor
+/// interested in one of the two tables (the tree cannot tell which table was the empty one)
+fn proj_a(cfg: &Cfg, e: &E) -> Option<E> {
+	match e {
+		E::CodeLocals { i, entries } => code_mask(cfg, *i).and_then(|cm| {
+			let es = strip_locals(&cm, entries);
+			if (cm.has("lvt") || cm.has("lvtt")) && (entries.is_empty() || !es.is_empty()) { Some(E::CodeLocals { i: *i, entries: es }) } else { None }
+		}),
 		_ => proj(cfg, e),
 	}
 }
 
-/// exact framing, good header, nothing the reader refuses twice — decided on the framing of the independent parser
-fn well_formed(f: &Frame) -> bool {
+/// exact framing, good header, nothing the reader refuses twice, member names that resolve — decided on the framing of
+/// the independent parser
+fn well_formed(f: &Frame) -> bool { wf(f, false) }
+/// the same for the header and the class attributes only (what a read that skips the members depends on)
+fn class_level_wf(f: &Frame) -> bool { wf(f, true) }
+fn wf(f: &Frame, only_class_level: bool) -> bool {
 	use c17frame::{CAttr, MAttr, L_CLASS, L_CODE, L_FIELD, L_METHOD, L_REC};
 	let leaf = |level: &[&str], flags: bool, a: &c17frame::Attr| -> bool {
 		if flags && (a.k == "dep" || a.k == "syn") { return a.len == 0; }
@@ -597,8 +606,10 @@ fn well_formed(f: &Frame) -> bool {
 	};
 	let lens = |v: &[&c17frame::Attr]| -> usize { 2 + v.iter().map(|a| 6 + a.len).sum::<usize>() };
 	if !f.hdr_ok { return false; }
-	for fl in &f.fields { if !fl.attrs.iter().all(|a| leaf(L_FIELD, true, a)) { return false; } }
+	if !only_class_level && !(f.fields.iter().all(|m| m.ok) && f.methods.iter().all(|m| m.ok)) { return false; }
+	for fl in &f.fields { if only_class_level { break; } if !fl.attrs.iter().all(|a| leaf(L_FIELD, true, a)) { return false; } }
 	for m in &f.methods {
+		if only_class_level { break; }
 		for a in &m.attrs {
 			match a {
 				MAttr::Leaf(a) => if !leaf(L_METHOD, true, a) { return false; },
@@ -756,7 +767,41 @@ fn exec(op: &str, args: &[Sexp]) -> Ans {
 			let r = read_stream(&bytes, &fulls);
 			if r.len() == fs.len() && r.iter().zip(&fs).all(|(x, f)| matches!(x, Ok((n, _)) if *n == f.size)) { Ans::pass() } else { Ans::fail("full-read") }
 		}
-		"oracle-replay-projection" | "oracle-replay-masked" | "oracle-replay-masked-full" => {
+		"oracle-members-skipped" => {
+			// `members_skipped_read_spec` / `members_skipped_concat`: visitors that decline the class or ask for neither fields
+			// nor methods read files whose header and class attributes are fine — whatever the members hold — one per read,
+			// and receive class-level events only
+			let s = match stream_args(args) { Ok(s) => s, Err(e) => return bad(e) };
+			let Some(fs) = c17frame::frames(&s.bytes) else { return Ans::out_of_domain() };
+			if !fs.iter().all(class_level_wf) || fs.len() != s.cfgs.len()
+				|| !s.cfgs.iter().all(|c| c.cls.is_none() || (!c.fields_i && !c.methods_i)) { return Ans::out_of_domain(); }
+			let r = read_stream(&s.bytes, &s.cfgs);
+			if r.len() != fs.len() { return Ans::fail("short"); }
+			let class_level = |e: &E| matches!(e, E::Begin { l: Lvl::C | Lvl::R, .. } | E::Attr { l: Lvl::C | Lvl::R, .. } | E::Flags { l: Lvl::C, .. } | E::End { l: Lvl::C | Lvl::R, .. });
+			if r.iter().zip(&fs).all(|(x, f)| matches!(x, Ok((n, evs)) if *n == f.size && evs.iter().all(class_level))) { Ans::pass() } else { Ans::fail("members-skipped") }
+		}
+		"replay-both" | "oracle-replay-both" => {
+			// the tree of the full read with a descriptor and a signature put into every local variable entry (the reader never
+			// builds such a tree, merging the two tables by hand does): replayed / masked replay = projection of the full replay
+			let (bytes, cfg) = match args { [b, _f, c] => match (b.as_bytes(), Cfg::parse(c)) { (Ok(b), Ok(c)) => (b, c), _ => return bad("args".into()) }, _ => return bad("arity".into()) };
+			if op == "oracle-replay-both" && full_reads(&Stream { bytes: bytes.clone(), cfgs: vec![cfg.clone()] }).is_none() { return Ans::out_of_domain(); }
+			let mut class = match duke::read_class(&mut Cursor::new(&bytes)) { Ok(c) => c, Err(_) => return if op == "replay-both" { Ans::err() } else { Ans::out_of_domain() } };
+			for m in class.methods.iter_mut() {
+				if let Some(lvs) = m.code.as_mut().and_then(|k| k.local_variables.as_mut()) {
+					for lv in lvs.iter_mut() {
+						if lv.descriptor.is_none() { lv.descriptor = Some(unsafe { FieldDescriptor::from_inner_unchecked(JavaString::from("I")) }); }
+						if lv.signature.is_none() { lv.signature = Some(unsafe { FieldSignature::from_inner_unchecked(JavaString::from("TT;")) }); }
+					}
+				}
+			}
+			if op == "replay-both" {
+				return match replay(class, &cfg) { Ok(evs) => Ans::Ok(ids(&evs)), Err(()) => Ans::err() };
+			}
+			let (Ok(full), Ok(masked)) = (replay(class.clone(), &Cfg::full()), replay(class, &cfg)) else { return Ans::fail("replay") };
+			let want: Vec<E> = full.iter().filter_map(|e| proj(&cfg, e)).collect();
+			if norm(&masked) == norm(&want) { Ans::pass() } else { Ans::fail("replay-both") }
+		}
+		"oracle-replay-projection" | "oracle-replay-masked" | "oracle-replay-masked-full" | "oracle-replay-masked-nolocals" => {
 			let (bytes, cfg) = match args { [b, _f, c] => match (b.as_bytes(), Cfg::parse(c)) { (Ok(b), Ok(c)) => (b, c), _ => return bad("args".into()) }, _ => return bad("arity".into()) };
 			let s1 = Stream { bytes: bytes.clone(), cfgs: vec![cfg.clone()] };
 			if full_reads(&s1).is_none() { return Ans::out_of_domain(); }
@@ -766,14 +811,13 @@ fn exec(op: &str, args: &[Sexp]) -> Ans {
 				let want: Vec<E> = full.iter().filter_map(|e| proj_a(&cfg, e)).collect();
 				if masked == want { Ans::pass() } else { Ans::fail("replay-projection") }
 			} else {
-				// where the property asks replay and read to agree: the visitor wants members, frames, and both local variable tables or none
-				let nm = class.methods.len();
-				let ok_code = (0..nm).all(|i| match code_mask(&cfg, i) { Some(cm) => cm.has("smt") && cm.has("lvt") == cm.has("lvtt"), None => true });
-				// (`-full`: the property as stated, for every visitor — fails where the code deviates from it)
-				if op == "oracle-replay-masked" && (!cfg.fields_i || !cfg.methods_i || !ok_code) { return Ans::out_of_domain(); }
+				// `oracle-replay-masked` / `-full` (accept_projection_as_read, per item and kind — a local variable vector without
+				// entries says nothing): replay = read for every visitor: fields / methods on or off, any stack map interest, any
+				// local variable interests; `-nolocals`: the same on everything but `visit_local_variables`
 				let Ok(rep) = replay(class, &cfg) else { return Ans::fail("replay") };
+				let strip = |v: &[E]| -> Vec<E> { if op == "oracle-replay-masked-nolocals" { v.iter().filter(|e| !matches!(e, E::CodeLocals { .. })).cloned().collect() } else { v.to_vec() } };
 				match read_stream(&bytes, std::slice::from_ref(&cfg)).first() {
-					Some(Ok((_, evs))) => if digest(&rep) == digest(evs) { Ans::pass() } else { Ans::fail("replay-masked") },
+					Some(Ok((_, evs))) => if digest(&strip(&rep)) == digest(&strip(evs)) { Ans::pass() } else { Ans::fail("replay-masked") },
 					_ => Ans::fail("read"),
 				}
 			}
@@ -798,7 +842,7 @@ fn digest(evs: &[E]) -> BTreeMap<String, Vec<String>> {
 			E::CodeInsns { i, insns, frames } => (format!("k{i}:insns"), insns.iter().zip(frames).map(|(a, b)| format!("{a} {b:?}")).collect()),
 			E::CodeExc { i, c, .. } => (format!("k{i}:exc"), vec![c.clone()]),
 			E::CodeLines { i, c, .. } => (format!("k{i}:lines"), vec![c.clone()]),
-			E::CodeLocals { i, entries } => (format!("k{i}:locals"), entries.iter().map(|x| x.1.clone()).collect()),
+			E::CodeLocals { i, entries } => (format!("k{i}:locals"), entries.iter().map(|x| format!("{} {:?} {:?}", x.2, x.0, x.1)).collect()),
 		};
 		m.entry(key).or_default().extend(items);
 	}
@@ -837,7 +881,26 @@ fn cfg_stats(out: &mut Out, c: &Cfg) {
 	if c.methods.iter().flatten().any(|m| !m.code) { out.stats.hit("cfg:code-not-of-interest"); }
 	if c.recs.iter().any(|f| f.is_none()) { out.stats.hit("cfg:some-record-component-declined"); }
 	if *c == Cfg::full() { out.stats.hit("cfg:full"); }
+	if c.cls.is_some() {
+		match (c.fields_i, c.methods_i) {
+			(false, true) => out.stats.hit("cfg:fields-off"),
+			(true, false) => out.stats.hit("cfg:methods-off"),
+			(false, false) => out.stats.hit("cfg:fields-and-methods-off"),
+			_ => {}
+		}
+	}
 }
+
+/// a random configuration whose class visitor reports the given `fields` / `methods` interests
+fn member_flags_cfg(r: &mut Rng, f: &Frame, fields_i: bool, methods_i: bool) -> Cfg {
+	let mut c = Cfg::random(r, f);
+	if c.cls.is_none() { c.cls = Some(Mask::random(r)); }
+	c.fields_i = fields_i;
+	c.methods_i = methods_i;
+	c
+}
+
+const MEMBER_FLAGS: [(bool, bool); 3] = [(false, true), (true, false), (false, false)];
 
 /// everything asked about one well-formed file
 fn one_file(out: &mut Out, r: &mut Rng, b: &[u8], f: &Frame, n_cfg: usize, oracles: bool) {
@@ -872,19 +935,73 @@ fn one_file(out: &mut Out, r: &mut Rng, b: &[u8], f: &Frame, n_cfg: usize, oracl
 		out.op("oracle-full-read", &[Sexp::bytes(b), frames_sexp(fs)]);
 		let cfg = Cfg::random(r, f);
 		out.op("oracle-replay-projection", &[Sexp::bytes(b), f.sexp(), cfg.sexp()]);
-		// a configuration on which replay and read are to agree
-		let mut c2 = Cfg::random(r, f);
-		c2.fields_i = true; c2.methods_i = true;
-		for m in c2.methods.iter_mut().flatten() {
-			if let Some(cm) = &mut m.code_v {
-				let both = cm.has("lvt");
-				let mut x = Mask(cm.0 | 1 << TAGS.iter().position(|t| *t == "smt").unwrap());
-				if both { x = Mask(x.0 | 1 << TAGS.iter().position(|t| *t == "lvtt").unwrap()); } else { x = x.without("lvtt"); }
-				*cm = x;
-			}
-		}
-		out.op("oracle-replay-masked", &[Sexp::bytes(b), f.sexp(), c2.sexp()]);
+		// replay = read: for every visitor on everything but the local variables; for every visitor whose code visitors treat
+		// the two local variable tables alike on everything (any member flags, any stack map interest)
+		let cfg = Cfg::random(r, f);
+		out.op("oracle-replay-masked-nolocals", &[Sexp::bytes(b), f.sexp(), cfg.sexp()]);
+		out.op("oracle-replay-masked", &[Sexp::bytes(b), f.sexp(), cfg.sexp()]);
+		let c2 = Cfg::random(r, f);
+		cfg_stats(out, &c2);
+		out.op("oracle-replay-masked-full", &[Sexp::bytes(b), f.sexp(), c2.sexp()]);
+		// a tree with both halves in every local variable entry
+		out.op("replay-both", &[Sexp::bytes(b), f.sexp(), c2.sexp()]);
+		out.op("oracle-replay-both", &[Sexp::bytes(b), f.sexp(), c2.sexp()]);
 	}
+	// code visitors interested in one / neither of the two local variable tables, on files that have such tables
+	let tables = |k: &str| f.methods.iter().flat_map(|m| m.attrs.iter()).filter_map(|a| match a { c17frame::MAttr::Code(c) => Some(c), _ => None })
+		.flat_map(|c| c.attrs.iter()).filter(|a| a.k == k).map(|a| a.pay.first().copied().unwrap_or(0)).collect::<Vec<usize>>();
+	let (lvts, lvtts) = (tables("lvt"), tables("lvtt"));
+	if !lvts.is_empty() || !lvtts.is_empty() {
+		if !lvts.is_empty() && !lvtts.is_empty() { out.stats.hit("file:with-lvt-and-lvtt"); }
+		if lvts.iter().chain(&lvtts).any(|n| *n == 0) { out.stats.hit("file:with-local-variable-table-without-entries"); }
+		for (name, lvt, lvtt) in [("lvt-only", true, false), ("lvtt-only", false, true), ("neither-local-variable-table", false, false)] {
+			let mut cfg = if r.chance(1, 2) { Cfg::full() } else { Cfg::random(r, f) };
+			if cfg.cls.is_none() { cfg.cls = Some(Mask::ALL); }
+			cfg.methods_i = true;
+			cfg.methods = (0..f.methods.len()).map(|j| {
+				let mut m = cfg.method(j).unwrap_or(MethodCfg::FULL);
+				m.code = true;
+				let cm = m.code_v.unwrap_or(Mask::ALL);
+				let cm = if lvt { cm.with("lvt") } else { cm.without("lvt") };
+				m.code_v = Some(if lvtt { cm.with("lvtt") } else { cm.without("lvtt") });
+				Some(m)
+			}).collect();
+			out.stats.hit(&format!("cfg:code-visitor-{name}"));
+			emit_stream(out, "read", b, fs, std::slice::from_ref(&cfg));
+			out.op("replay", &[Sexp::bytes(b), f.sexp(), cfg.sexp()]);
+			out.op("replay-both", &[Sexp::bytes(b), f.sexp(), cfg.sexp()]);
+			emit_stream(out, "oracle-projection", b, fs, std::slice::from_ref(&cfg));
+			out.op("oracle-replay-projection", &[Sexp::bytes(b), f.sexp(), cfg.sexp()]);
+			out.op("oracle-replay-masked-full", &[Sexp::bytes(b), f.sexp(), cfg.sexp()]);
+			out.op("oracle-replay-both", &[Sexp::bytes(b), f.sexp(), cfg.sexp()]);
+		}
+	}
+	// class visitors that report `fields` / `methods` = false (two of the three combinations per file, all three in turn)
+	let turn = r.below(3);
+	for v in 0..2 {
+		let (fi, mi) = MEMBER_FLAGS[(turn + v) % 3];
+		let cfg = member_flags_cfg(r, f, fi, mi);
+		cfg_stats(out, &cfg);
+		emit_stream(out, "read", b, fs, std::slice::from_ref(&cfg));
+		out.op("replay", &[Sexp::bytes(b), f.sexp(), cfg.sexp()]);
+		if oracles {
+			emit_stream(out, "oracle-projection", b, fs, std::slice::from_ref(&cfg));
+			emit_stream(out, "oracle-consumed", b, fs, std::slice::from_ref(&cfg));
+			out.op("oracle-replay-masked-nolocals", &[Sexp::bytes(b), f.sexp(), cfg.sexp()]);
+			out.op("oracle-replay-masked-full", &[Sexp::bytes(b), f.sexp(), cfg.sexp()]);
+			if !fi && !mi { emit_stream(out, "oracle-members-skipped", b, fs, std::slice::from_ref(&cfg)); }
+		}
+	}
+}
+
+/// overwrite the `name_index` (or `descriptor_index`) of a member with an index that names no `CONSTANT_Utf8`
+fn break_member(r: &mut Rng, b: &[u8], off: usize) -> Vec<u8> {
+	let mut b2 = b.to_vec();
+	let count = u16::from_be_bytes([b[8], b[9]]);
+	let at = if r.chance(2, 3) { off + 2 } else { off + 4 };
+	let bad = if r.chance(1, 2) { 0u16 } else { count };
+	b2[at..at + 2].copy_from_slice(&bad.to_be_bytes());
+	b2
 }
 
 fn gen(r: &mut Rng, tier: Tier, out: &mut Out) {
@@ -936,8 +1053,10 @@ fn gen(r: &mut Rng, tier: Tier, out: &mut Out) {
 				out.stats.hit("exhaustive:class-mask");
 			}
 			let (nf, nm) = (f.fields.len(), f.methods.len());
-			for bits in 0..(1u32 << (nf + 2 * nm)) {
+			for bits in 0..(1u32 << (nf + 2 * nm + 2)) {
 				let mut cfg = Cfg::full();
+				cfg.fields_i = bits >> (nf + 2 * nm) & 1 == 0;
+				cfg.methods_i = bits >> (nf + 2 * nm + 1) & 1 == 0;
 				cfg.fields = (0..nf).map(|j| if bits >> j & 1 == 1 { None } else { Some(Mask::ALL) }).collect();
 				cfg.methods = (0..nm).map(|j| match bits >> (nf + 2 * j) & 3 {
 					0 => Some(MethodCfg::FULL), 1 => None,
@@ -957,7 +1076,17 @@ fn gen(r: &mut Rng, tier: Tier, out: &mut Out) {
 		let parts: Vec<&(Vec<u8>, Frame)> = (0..n).map(|_| *r.pick(&pool)).collect();
 		let bytes: Vec<u8> = parts.iter().flat_map(|p| p.0.iter().copied()).collect();
 		let fs: Vec<Frame> = parts.iter().map(|p| p.1.clone()).collect();
-		let cfgs: Vec<Cfg> = fs.iter().map(|f| if r.chance(1, 5) { Cfg::full() } else { Cfg::random(r, f) }).collect();
+		let mut cfgs: Vec<Cfg> = fs.iter().map(|f| if r.chance(1, 5) { Cfg::full() } else { Cfg::random(r, f) }).collect();
+		if r.chance(1, 2) {
+			// a file read without its fields / methods, followed by another file
+			let j = r.below(n - 1);
+			let (fi, mi) = MEMBER_FLAGS[r.below(3)];
+			cfgs[j] = member_flags_cfg(r, &fs[j], fi, mi);
+		}
+		for (j, c) in cfgs.iter().enumerate() {
+			if j + 1 < n && c.cls.is_some() && (!c.fields_i || !c.methods_i) { out.stats.hit("stream:members-skipped-then-next-file"); break; }
+		}
+		for c in &cfgs { cfg_stats(out, c); }
 		out.stats.hit(&format!("stream:{n}-files"));
 		emit_stream(out, "read", &bytes, &fs, &cfgs);
 		emit_stream(out, "oracle-concat", &bytes, &fs, &cfgs);
@@ -974,6 +1103,40 @@ fn gen(r: &mut Rng, tier: Tier, out: &mut Out) {
 		out.stats.hit("malformed:truncated");
 		emit_stream(out, "read", &b[..cut], std::slice::from_ref(f), std::slice::from_ref(&cfg));
 		emit_stream(out, "oracle-consumed", &b[..cut], std::slice::from_ref(f), std::slice::from_ref(&cfg));
+	}
+	// ---- 4b. members whose name / descriptor index names nothing: an error for every visitor that gets to see the member,
+	// invisible to one whose class visitor does not ask for fields (methods) or that declines the class
+	let with_members: Vec<&(Vec<u8>, Frame)> = pool.iter().copied().filter(|x| !x.1.fields.is_empty() || !x.1.methods.is_empty()).collect();
+	for _ in 0..(40 * scale) {
+		if with_members.is_empty() { break; }
+		let (b, f) = *r.pick(&with_members);
+		let in_field = if f.fields.is_empty() { false } else if f.methods.is_empty() { true } else { r.chance(1, 2) };
+		let off = if in_field { r.pick(&f.fields).off } else { r.pick(&f.methods).off };
+		let b2 = break_member(r, b, off);
+		let Some(f2) = c17frame::frame(&b2) else { out.stats.hit("file:broken-member-not-framed"); continue };
+		if f2.size != b2.len() || f2.fields.iter().all(|m| m.ok) && f2.methods.iter().all(|m| m.ok) { continue; }
+		out.stats.hit(if in_field { "malformed:field-name-unresolvable" } else { "malformed:method-name-unresolvable" });
+		let fs2 = std::slice::from_ref(&f2);
+		emit_stream(out, "read", &b2, fs2, &[Cfg::full()]);
+		for (fi, mi) in MEMBER_FLAGS {
+			let cfg = member_flags_cfg(r, &f2, fi, mi);
+			if (in_field && !fi) || (!in_field && !mi) { out.stats.hit("malformed:broken-member-behind-skipped-region"); }
+			emit_stream(out, "read", &b2, fs2, std::slice::from_ref(&cfg));
+			if !fi && !mi { emit_stream(out, "oracle-members-skipped", &b2, fs2, std::slice::from_ref(&cfg)); }
+		}
+		let mut declined = Cfg::random(r, &f2); declined.cls = None;
+		emit_stream(out, "read", &b2, fs2, std::slice::from_ref(&declined));
+		emit_stream(out, "oracle-members-skipped", &b2, fs2, std::slice::from_ref(&declined));
+		// the same file in a stream: read without members, then another file with any visitor; and the other way round
+		let (b3, f3) = *r.pick(&pool);
+		let bytes: Vec<u8> = b2.iter().chain(b3.iter()).copied().collect();
+		let skip = member_flags_cfg(r, &f2, false, false);
+		let other = if r.chance(1, 2) { Cfg::full() } else { Cfg::random(r, f3) };
+		out.stats.hit("stream:broken-members-skipped-then-next-file");
+		emit_stream(out, "read", &bytes, &[f2.clone(), f3.clone()], &[skip.clone(), other]);
+		emit_stream(out, "oracle-members-skipped", &bytes, &[f2.clone(), f3.clone()], &[skip.clone(), member_flags_cfg(r, f3, false, false)]);
+		let bytes: Vec<u8> = b3.iter().chain(b2.iter()).copied().collect();
+		emit_stream(out, "read", &bytes, &[f3.clone(), f2.clone()], &[Cfg::random(r, f3), skip]);
 	}
 	for _ in 0..(10 * scale) {
 		let (b, _) = *r.pick(&pool);
@@ -1013,6 +1176,14 @@ fn gen(r: &mut Rng, tier: Tier, out: &mut Out) {
 		}
 		emit_stream(out, "read", &b, std::slice::from_ref(&f), &[Cfg::full()]);
 		emit_stream(out, "oracle-projection", &b, std::slice::from_ref(&f), &[Cfg::full()]);
+		// a refused second stack map sits inside a method: no error for a class visitor that does not ask for methods
+		let fi = r.chance(1, 2);
+		let cfg = member_flags_cfg(r, &f, fi, false);
+		if opts.dup_frames { out.stats.hit("malformed:refused-duplicate-behind-skipped-methods"); }
+		emit_stream(out, "read", &b, std::slice::from_ref(&f), std::slice::from_ref(&cfg));
+		let cfg = member_flags_cfg(r, &f, false, false);
+		emit_stream(out, "read", &b, std::slice::from_ref(&f), std::slice::from_ref(&cfg));
+		if opts.dup_frames { emit_stream(out, "oracle-members-skipped", &b, std::slice::from_ref(&f), std::slice::from_ref(&cfg)); }
 	}
 }
 
